@@ -18,15 +18,24 @@ func (p *PX) fieldCellTracked(fa *ssa.FieldAddr, vt *Term, fr *pxFrame, st *pxSt
 	if vt.K == TPure && vt.Name == "append" {
 		return true
 	}
-	// a struct that lives in a local variable of some frame on this path
+	// a struct that lives in a local variable of some frame on this path and whose
+	// address is only handed down to static package callees (never stored, boxed,
+	// captured or given to library / dynamic code, which could write it unseen)
 	base := p.term(fa.X, fr, st)
 	if base.K == TLeaf {
-		if _, ok := base.V.(*ssa.Alloc); ok {
-			return true
+		if al, ok := base.V.(*ssa.Alloc); ok {
+			leaks, known := allocLeakCache[al]
+			if !known {
+				leaks = p.w.addrLeaks(al, map[ssa.Value]bool{})
+				allocLeakCache[al] = leaks
+			}
+			return !leaks
 		}
 	}
 	return false
 }
+
+var allocLeakCache = map[*ssa.Alloc]bool{}
 
 // structStore: a store of a whole struct value (`*p = T{…}`, `*p = *q`)
 // overwrites every field of the destination: their versions advance.
